@@ -112,20 +112,23 @@ Open Scope R_scope.
 Lemma byte_0 : @byte ROps 0 = 0.
 Proof. unfold byte. cbn. lra. Qed.
 
+Lemma pval_0 den : @pval ROps den 0 = 0.
+Proof. unfold pval. cbn. unfold Rdiv. apply Rmult_0_l. Qed.
+
 (* a pixel layer whose transparency plane is 0 everywhere *)
 Lemma noop_alpha0 b x y k rc chans alpha at_ :
   Forall (fun z => z = 0%Z) alpha -> noop_at b x y k (Px rc chans alpha at_).
 Proof.
   intros H. unfold noop_at. cbn [plane_layer attrs_of].
   destruct (negb (at_vis at_)); [constructor|]. constructor; [|constructor].
-  assert (E : abs_at rc (@plane_at ROps alpha (rwidth rc)) (@f0 ROps) x y = 0).
+  assert (E : abs_at rc (@plane_at ROps (at_den at_) alpha (rwidth rc)) (@f0 ROps) x y = 0).
   { unfold abs_at. destruct rc as [[[bl bt] br] bb_]. destruct (inside _ x y); [|reflexivity].
     unfold plane_at.
     assert (Z : nth (Z.to_nat ((y - bt) * rwidth (bl, bt, br, bb_) + (x - bl))) alpha 0%Z = 0%Z).
     { destruct (Nat.lt_ge_cases (Z.to_nat ((y - bt) * rwidth (bl, bt, br, bb_) + (x - bl))) (length alpha)) as [Hl|Hl].
       - rewrite Forall_forall in H. apply H. apply nth_In. exact Hl.
       - apply nth_overflow. exact Hl. }
-    rewrite Z. apply byte_0. }
+    rewrite Z. apply pval_0. }
   rewrite E. apply nb_shape.
 Qed.
 
